@@ -20,6 +20,13 @@ ALLOWED_AXIOMS = {"propext", "Classical.choice", "Quot.sound"}
 PROPS = {
     "C01": dict(streams=["c01"], items=["keycodes", "layoutkeys", "charclasses", "rankcmp", "okkhor"]),
     "C02": dict(streams=["c01"], items=["keycodes", "layoutkeys", "charclasses", "rankcmp", "okkhor"]),
+    "C05": dict(streams=["c05"], items=["keycodes", "charclasses", "rankcmp", "okkhor"]),
+    "C06": dict(streams=["c06", "c01"], items=["keycodes", "layoutkeys", "charclasses", "rankcmp", "okkhor"]),
+    "C07": dict(streams=["c07"], items=["keycodes", "charclasses", "rankcmp", "okkhor"]),
+    "C08": dict(streams=["c07"], items=["keycodes", "charclasses", "rankcmp", "okkhor"]),
+    "C12": dict(streams=["c12"], items=["keycodes", "layoutkeys", "charclasses"]),
+    "C13": dict(streams=["c13"], items=["keycodes", "layoutkeys", "charclasses"]),
+    "C14": dict(streams=["c14"], items=["keycodes", "layoutkeys", "charclasses"]),
     "C03": dict(streams=["c03"], items=["keycodes", "charclasses", "okkhor"]),
     "C04": dict(streams=["c04"], items=["keycodes", "layoutkeys", "charclasses"]),
 }
